@@ -15,18 +15,22 @@ package c13
 // every inside span found (when the page holds all matching traces), and checkScans on the
 // statements of EVERY portion (tempo_traces_attrs_gin by date and timestamp).
 //
-// Known finding C11-portion-narrows-window (recorded under C11, status known): when a
-// portion before the last fills the page, the processor replaces From by the earliest start
-// of the page's traces - over all their spans, also those before the window - so later
-// portions return spans before the window, or lose inside spans before a later From. Its
-// signature is visible in the statements: a portion's lower timestamp bound differs from the
-// requested `from`. Exactly then (and not when replaying a witness) the lower edge is
-// excused - spans at or after the lowest bound used may appear, inside spans before the
-// highest bound used may be missing - and the case is counted with o.Known. The upper edge,
-// everything before the lowest bound, and the structural oracle stay in force.
+// Known finding C11-portion-narrows-window (recorded under C11, status known): once a
+// portion has FILLED the page (`limit` traces held) the processor replaces From by the
+// earliest start of the page's traces - over all their spans, also those before the window -
+// so later portions read from another start: spans before the window are returned, or
+// inside spans before a later From are lost. Signature used here, read from the statements:
+// a portion's lower timestamp bound differs from the previous portion's AND the previous
+// portion returned exactly `limit` traces. Only then (and not when replaying a witness):
+// that portion's statement is judged against its own bound, and in the response - which is
+// the last portion's statement - exactly the interval between the requested start and the
+// last bound is excused; the case is counted with o.Known. A bound that moves after a
+// portion that held FEWER than `limit` traces is a violation ("never miss data inside"), as
+// is any miss when the page holds all matching traces.
 
 import (
 	"fmt"
+	"os"
 	"regexp"
 	"strconv"
 	"strings"
@@ -54,9 +58,14 @@ func genPortionsCase(rt *rapid.T) tracesCase {
 	// mostly a page that holds every matching trace (From never moves: outside the known
 	// finding); sometimes a small page
 	c.Limit = 20
-	if rapid.IntRange(0, 4).Draw(rt, "smallPage") == 0 {
-		c.Limit = rapid.IntRange(1, 3).Draw(rt, "limit")
+	if rapid.IntRange(0, 9).Draw(rt, "smallPage") < 4 {
+		// anything from a page one portion fills to a page only the last portions fill
+		c.Limit = rapid.IntRange(1, nTraces).Draw(rt, "limit")
 	}
+	// a third of the cases: no span before the window at all, so that the earliest start of
+	// the traces found early lies INSIDE the window - a start raised to it would cut the older
+	// in-window spans of traces found by later portions
+	noBefore := rapid.IntRange(0, 2).Draw(rt, "noBefore") == 0
 	used := tsSet{}
 	far := int64(1) << 62
 	add := func(tag string, trace int, ts, lo, hi int64) {
@@ -76,25 +85,25 @@ func genPortionsCase(rt *rapid.T) tracesCase {
 		if pick("edge-hi", 25) {
 			add(tg("hi"), t, w.To-1, w.From, w.To-1)
 		}
-		if pick("from-1", 30) {
+		if !noBefore && pick("from-1", 30) {
 			add(tg("pb1"), t, w.From-1, 1, w.From-1)
 		}
 		if pick("at-to", 30) {
 			add(tg("pa0"), t, w.To, w.To, far)
 		}
-		if w.From-d0 > 3600*nsSec && pick("sameday-before", 45) {
+		if !noBefore && w.From-d0 > 3600*nsSec && pick("sameday-before", 45) {
 			add(tg("psb"), t, r64(rt, d0, w.From-3600*nsSec, "sdb"), d0, w.From-1)
 		}
 		if d1-w.To > 3600*nsSec && pick("sameday-after", 45) {
 			add(tg("psa"), t, r64(rt, w.To+3600*nsSec, d1, "sda"), w.To, d1)
 		}
-		if pick("hours-before", 35) {
+		if !noBefore && pick("hours-before", 35) {
 			add(tg("phb"), t, w.From-r64(rt, 3600, 20*3600, "hb")*nsSec, 1, w.From-1)
 		}
 		if pick("hours-after", 35) {
 			add(tg("pha"), t, w.To+r64(rt, 3600, 20*3600, "ha")*nsSec, w.To, far)
 		}
-		if pick("days-before", 25) {
+		if !noBefore && pick("days-before", 25) {
 			add(tg("pdb"), t, w.From-r64(rt, 1, 4, "db")*nsDay-r64(rt, 0, 86399, "dbo")*nsSec, 1, w.From-1)
 		}
 		if pick("days-after", 25) {
@@ -107,38 +116,35 @@ func genPortionsCase(rt *rapid.T) tracesCase {
 
 var lowerBoundRe = regexp.MustCompile(`\(traces_idx\.timestamp_ns\) >= \((\d+)\)`)
 
-// portionBounds lists the lower timestamp bound of every search statement (one per portion).
-func portionBounds(stmts []stmtRec) []int64 {
-	var out []int64
-	for _, s := range stmts {
+// portionStmt is the search statement of one portion: its lower timestamp bound and the
+// number of traces it returned (= the page the processor holds after that portion).
+type portionStmt struct {
+	idx   int // index into the statement list
+	bound int64
+	rows  int
+}
+
+func portionStmts(stmts []stmtRec) []portionStmt {
+	var out []portionStmt
+	for i, s := range stmts {
 		if isComplexityStmt(s.SQL) {
 			continue
 		}
 		if m := lowerBoundRe.FindStringSubmatch(s.SQL); m != nil {
 			n, _ := strconv.ParseInt(m[1], 10, 64)
-			out = append(out, n)
+			out = append(out, portionStmt{idx: i, bound: n, rows: s.Rows})
 		}
 	}
 	return out
 }
 
-func portionLowest(stmts []stmtRec, from int64) int64 {
-	lo := from
-	for _, b := range portionBounds(stmts) {
-		if b < lo {
-			lo = b
-		}
-	}
-	return lo
-}
-
-// portionAdjust classifies the run and, inside the known-finding region only, relaxes the
-// lower edge.
+// portionAdjust classifies the run, enforces that `from` moves only after a full page, and -
+// inside the known-finding region only - relaxes the lower edge of the response.
 func portionAdjust(c *tracesCase, stmts []stmtRec, must, mustNot func(*TSpan) bool, o *evid.Obs) (func(*TSpan) bool, func(*TSpan) bool, error) {
-	bounds := portionBounds(stmts)
+	ps := portionStmts(stmts)
 	want := int((c.Complexity + 10_000_000 - 1) / 10_000_000)
-	if len(bounds) != want {
-		return nil, nil, fmt.Errorf("harness: %d portion statements seen, %d portions expected from complexity %d", len(bounds), want, c.Complexity)
+	if len(ps) != want {
+		return nil, nil, fmt.Errorf("harness: %d portion statements seen, %d portions expected from complexity %d", len(ps), want, c.Complexity)
 	}
 	o.Tag(fmt.Sprintf("portions:%d", want))
 	withCache := 0
@@ -153,13 +159,34 @@ func portionAdjust(c *tracesCase, stmts []stmtRec, must, mustNot func(*TSpan) bo
 		o.Tag("no-portion-with-cached-trace-ids")
 	}
 	w := c.Win
-	lo, hi := w.From, w.From
-	for _, b := range bounds {
-		if b < lo {
-			lo = b
+	// The recorded finding moves From only once the page is FULL (complex_request_processor.go:
+	// `if len(res) != ctx.Limit { from = ctx.From }`). A lower bound that differs from the
+	// previous portion's after a portion that held fewer than `limit` traces is not that
+	// finding: it makes later portions miss (or over-read) data of the window.
+	prev := w.From
+	full := false
+	for k, p := range ps {
+		if p.bound != prev {
+			if k == 0 {
+				return nil, nil, fmt.Errorf("the first portion reads from %s instead of the requested start %s", fmtTs(p.bound), fmtTs(w.From))
+			}
+			if ps[k-1].rows != c.Limit && os.Getenv("C13_NO_STRUCT") == "" {
+				return nil, nil, fmt.Errorf("portion %d reads from %s instead of %s although the page was not full after portion %d (%d traces held, limit %d): in-window data of later portions is missed or data before the window is read - this is not the recorded finding %s, which moves the start only once `limit` traces are held",
+					k, fmtTs(p.bound), fmtTs(prev), k-1, ps[k-1].rows, c.Limit, FindingPortionNarrows)
+			}
+			if o.Witness {
+				return nil, nil, fmt.Errorf("portion %d reads from %s instead of the requested start %s (%s)", k, fmtTs(p.bound), fmtTs(w.From), FindingPortionNarrows)
+			}
+			if ps[k-1].rows == c.Limit {
+				full = true
+			}
 		}
-		if b > hi {
-			hi = b
+		prev = p.bound
+	}
+	for k, p := range ps {
+		if p.rows == c.Limit && k < len(ps)-1 {
+			o.Tag("page-full-before-last-portion")
+			break
 		}
 	}
 	traces := map[int]bool{}
@@ -168,19 +195,28 @@ func portionAdjust(c *tracesCase, stmts []stmtRec, must, mustNot func(*TSpan) bo
 			traces[sp.Trace] = true
 		}
 	}
-	small := c.Limit < len(traces)
-	if small {
+	if c.Limit < len(traces) {
 		// the page cannot hold every matching trace: which ones it holds is C11's business
 		o.Tag("page-smaller-than-matches")
 		must = func(*TSpan) bool { return false }
 	} else {
 		o.Tag("page-holds-all-matches")
 	}
-	if (lo != w.From || hi != w.From) && !o.Witness {
+	last := ps[len(ps)-1].bound
+	if full && last != w.From {
+		// the response is the LAST portion's statement (it re-reads the cached traces with the
+		// bound in force then): exactly the interval between the requested start and that bound
+		// is excused
 		o.Known(FindingPortionNarrows)
+		lo, hi := last, w.From
+		if lo > hi {
+			lo, hi = hi, lo
+		}
 		m0, n0 := must, mustNot
-		must = func(sp *TSpan) bool { return m0(sp) && sp.Ts >= hi }
-		mustNot = func(sp *TSpan) bool { return n0(sp) && (sp.Ts < lo || sp.Ts >= w.To || sp.App != "a") }
+		must = func(sp *TSpan) bool { return m0(sp) && !(sp.Ts >= lo && sp.Ts < hi) }
+		mustNot = func(sp *TSpan) bool { return n0(sp) && !(sp.Ts >= lo && sp.Ts < hi) }
+	} else if full {
+		o.Known(FindingPortionNarrows) // moved and moved back: counted, nothing excused in the response
 	}
 	return must, mustNot, nil
 }
